@@ -1,4 +1,5 @@
 // C09: compressed input is decompressed completely and truncation is detected.
+#include "tmpdir.hpp"
 #include "gen.hpp"
 #include "pipefeed.hpp"
 
@@ -104,7 +105,7 @@ struct Stream {
 };
 
 static std::string tmpfile_with(const std::string& bytes) {
-    static const std::string path = "/dev/shm/verif-c09-" + std::to_string(getpid());
+    static const std::string path = tmpdir::prefix() + "c09-" + std::to_string(getpid());
     int fd = ::open(path.c_str(), O_CREAT | O_TRUNC | O_WRONLY, 0644);
     size_t off = 0;
     while (off < bytes.size()) {
@@ -341,7 +342,7 @@ static std::string ref_decompress_bz(const std::string& in, size_t hint) {
 static void own_compressor(Src& s) {
     const auto comp = s.boolean() ? osmium::io::file_compression::gzip : osmium::io::file_compression::bzip2;
     std::string plain;
-    const std::string path = "/dev/shm/verif-c09w-" + std::to_string(getpid());
+    const std::string path = tmpdir::prefix() + "c09w-" + std::to_string(getpid());
     size_t reported_size = 0;
     {
         int fd = ::open(path.c_str(), O_CREAT | O_TRUNC | O_WRONLY, 0644);
